@@ -836,6 +836,9 @@ class Builder:
                                         ('with', it.context_expr))
                 elif isinstance(n, ast.ExceptHandler) and n.name:
                     cache.setdefault(n.name, []).append(None)
+                elif isinstance(n, (ast.FunctionDef, ast.AsyncFunctionDef,
+                                    ast.ClassDef)):
+                    cache.setdefault(n.name, []).append(None)
                 elif isinstance(n, ast.NamedExpr):
                     cache.setdefault(n.target.id, []).append(n.value)
                 elif isinstance(n, (ast.Import, ast.ImportFrom)):
@@ -1043,6 +1046,11 @@ class Builder:
                 dn[0] not in self.local_names(fr.func):
             return True
         if len(dn) == 1 and dn[0] == 'getattr' and len(call.args) == 3:
+            return True
+        if dn[:2] == ('os', 'path') and len(dn) == 3 and dn[2] in (
+                'exists', 'join', 'dirname', 'basename', 'abspath', 'isdir',
+                'isfile', 'split', 'splitext', 'normpath', 'lexists') and \
+                'os' not in self.local_names(fr.func):
             return True
         last = dn[-1]
         if len(dn) >= 2:
